@@ -471,4 +471,221 @@ example : ddnGetId [2, 3, 2] [2] ⟨[0], [[0, 1], [2]]⟩ [1, 2, 1] [0] ≠
   ddnGetId_injective_on_action_blocks [2, 3, 2] [2] ⟨[0], [[0, 1], [2]]⟩ [1, 2, 1] [0] [0, 0, 0] [1]
     (by decide) (by decide) (by decide) (by decide) (by decide)
 
+/-! ## J: joint distribution of the multi-draw samplers
+
+  The set of draw vectors mapped to one outcome is a product of half-open intervals (a box) whose
+  side lengths are the table entries, so its volume is the product of the table entries. -/
+
+/-- **J4** (justifies fix C08-4, overflow-safe normalisation, in exact arithmetic): scaling by any
+    `m ≠ 0` first (the code: the largest entry) and then normalising gives exactly the one-step
+    normalisation of `projectToProbability` -/
+theorem normalize_scaled_eq (v : List Rat) (m : Rat) (hm : m ≠ 0) (hP : posSum v ≠ 0) :
+    let w := v.map (fun x => mask x * (x / m))
+    w.map (fun y => y / w.sum) = v.map (fun x => mask x * (x / posSum v)) := by
+  intro w
+  have hw : w.sum = posSum v / m := sum_mask_mul_div m v
+  rw [hw]
+  show (v.map (fun x => mask x * (x / m))).map (fun y => y / (posSum v / m)) = _
+  rw [List.map_map]
+  apply List.map_congr_left
+  intro x _
+  simp only [Function.comp]
+  field_simp
+
+/-- test (J4): v = (2, -1, 6) scaled by its largest entry 6 -/
+example : (([2, -1, 6] : List Rat).map (fun x => mask x * (x / 6))).map
+      (fun y => y / (([2, -1, 6] : List Rat).map (fun x => mask x * (x / 6))).sum) = [1/4, 0, 3/4] := by
+  have := normalize_scaled_eq [2, -1, 6] 6 (by norm_num) (by norm_num [posSum])
+  simp only at this
+  rw [this]; norm_num [posSum, mask]
+
+/-- **J1** dense POMDP model: the pairs of draws mapped to (next state `s1`, observation `o`) are exactly
+    the box `[c_{s1}, c_{s1} + T(s,a,s1)) × [c'_o, c'_o + O(s1,a,o))` -/
+theorem sampleSOR_box (T O : Nat → Nat → List Rat) (R : Nat → Nat → Rat) (s a s1 o : Nat) (u1 u2 : Rat)
+    (hnnT : ∀ x ∈ T a s, 0 ≤ x) (hsumT : (T a s).sum = 1)
+    (hnnO : ∀ x ∈ O a s1, 0 ≤ x) (hsumO : (O a s1).sum = 1)
+    (hu1 : 0 ≤ u1) (hu1' : u1 < 1) (hu2 : 0 ≤ u2) (hu2' : u2 < 1)
+    (hs1 : s1 < (T a s).length) (ho : o < (O a s1).length) :
+    ((sampleSOR T O R s a u1 u2).1 = s1 ∧ (sampleSOR T O R s a u1 u2).2.1 = o) ↔
+      (cum (T a s) s1 ≤ u1 ∧ u1 < cum (T a s) s1 + (T a s).getD s1 0) ∧
+      (cum (O a s1) o ≤ u2 ∧ u2 < cum (O a s1) o + (O a s1).getD o 0) := by
+  have e1 := dense_preimage_sum_one (T a s) u1 s1 hnnT hsumT hu1 hu1'
+  have e2 := dense_preimage_sum_one (O a s1) u2 o hnnO hsumO hu2 hu2'
+  constructor
+  · rintro ⟨h1, h2⟩
+    change sampleDense (T a s) u1 = s1 at h1
+    change sampleDense (O a (sampleDense (T a s) u1)) u2 = o at h2
+    rw [h1] at h2
+    exact ⟨(e1.mp h1).2, (e2.mp h2).2⟩
+  · rintro ⟨b1, b2⟩
+    have h1 := e1.mpr ⟨hs1, b1⟩
+    refine ⟨h1, ?_⟩
+    show sampleDense (O a (sampleDense (T a s) u1)) u2 = o
+    rw [h1]; exact e2.mpr ⟨ho, b2⟩
+
+/-- the area of the box of J1 is `T(s,a,s1) · O(s1,a,o)` -/
+theorem sampleSOR_box_area (T O : Nat → Nat → List Rat) (s a s1 o : Nat) :
+    ((cum (T a s) s1 + (T a s).getD s1 0) - cum (T a s) s1) *
+      ((cum (O a s1) o + (O a s1).getD o 0) - cum (O a s1) o) = (T a s).getD s1 0 * (O a s1).getD o 0 := by
+  ring
+
+/-- test (J1) -/
+example : (sampleSOR (fun _ _ => [1/4, 3/4]) (fun _ _ => [1/2, 1/2]) (fun _ _ => 0) 0 0 (1/2) (3/4)).1 = 1 ∧
+    (sampleSOR (fun _ _ => [1/4, 3/4]) (fun _ _ => [1/2, 1/2]) (fun _ _ => 0) 0 0 (1/2) (3/4)).2.1 = 1 :=
+  (sampleSOR_box (fun _ _ => [1/4, 3/4]) (fun _ _ => [1/2, 1/2]) (fun _ _ => 0) 0 0 1 1 (1/2) (3/4)
+    (by norm_num) (by norm_num) (by norm_num) (by norm_num) (by norm_num) (by norm_num) (by norm_num)
+    (by norm_num) (by simp) (by simp)).mpr (by norm_num [cum])
+
+/-! ### J3: factored state -/
+
+/-- `DDN::getTransitionProbability(s, a, s1)`: the product over the state factors of the entry of the
+    selected row.  By `coopSampleS_box` this is the volume of the box of draw vectors that
+    `CooperativeModel::sampleSR(s, a)` maps to `s1` (side `i` has length `row_i[s1_i]`). -/
+def ddnTransitionProbability (S A : List Nat) (parents : List ParentSet) (T : List (List (List Rat)))
+    (s a s1 : List Nat) : Rat :=
+  ((List.range parents.length).map (fun i =>
+    ((T.getD i []).getD (ddnGetId S A (parents.getD i ⟨[], []⟩) s a) []).getD (s1.getD i 0) 0)).prod
+
+theorem mo_prod_nonneg : ∀ l : List Rat, (∀ x ∈ l, 0 ≤ x) → 0 ≤ l.prod
+  | [], _ => by simp
+  | x :: xs, h => by
+    rw [List.prod_cons]
+    exact mul_nonneg (h x (List.mem_cons_self ..))
+      (mo_prod_nonneg xs (fun e he => h e (List.mem_cons_of_mem _ he)))
+
+theorem mo_getD_nonneg (l : List Rat) (hnn : ∀ x ∈ l, 0 ≤ x) (k : Nat) : 0 ≤ l.getD k 0 := by
+  rcases Nat.lt_or_ge k l.length with h | h
+  · rw [mo_getD_eq_getElem _ _ _ h]; exact hnn _ (List.getElem_mem _)
+  · simp [List.getD_eq_getElem?_getD, List.getElem?_eq_none h]
+
+theorem ddnTransitionProbability_nonneg (S A : List Nat) (parents : List ParentSet)
+    (T : List (List (List Rat))) (s a s1 : List Nat)
+    (hnn : ∀ i, i < parents.length → ∀ x ∈ mo_coopRow S A parents T s a i, 0 ≤ x) :
+    0 ≤ ddnTransitionProbability S A parents T s a s1 := by
+  unfold ddnTransitionProbability
+  apply mo_prod_nonneg
+  intro x hx
+  simp only [List.mem_map, List.mem_range] at hx
+  obtain ⟨i, hi, rfl⟩ := hx
+  exact mo_getD_nonneg _ (hnn i hi) _
+
+theorem mo_list_eq_iff_getD (l1 l2 : List Nat) (h : l1.length = l2.length) :
+    l1 = l2 ↔ ∀ i, i < l1.length → l1.getD i 0 = l2.getD i 0 := by
+  constructor
+  · rintro rfl _ _; rfl
+  · intro hh
+    apply List.ext_getElem h
+    intro i h1 h2
+    have := hh i h1
+    rwa [mo_getD_eq_getElem _ _ _ h1, mo_getD_eq_getElem _ _ _ h2] at this
+
+/-- **J3** the draw vectors that `CooperativeModel::sampleSR(s, a)` maps to the factored state `s1` are
+    exactly the box `Π_i [c_i, c_i + row_i[s1_i])`, `row_i = mo_coopRow … i` (by definition
+    `(T.getD i []).getD (ddnGetId S A (parents.getD i ⟨[], []⟩) s a) []`), `c_i = cum row_i s1_i`;
+    its volume is `ddnTransitionProbability S A parents T s a s1` -/
+theorem coopSampleS_box (S A : List Nat) (parents : List ParentSet) (T : List (List (List Rat)))
+    (s a : List Nat) (us : List Rat) (s1 : List Nat)
+    (h1 : parents.length = T.length) (h2 : T.length = us.length) (h3 : us.length = s1.length)
+    (hrow : ∀ i, i < us.length →
+      (∀ x ∈ mo_coopRow S A parents T s a i, 0 ≤ x) ∧ (mo_coopRow S A parents T s a i).sum = 1)
+    (hu : ∀ i, i < us.length → 0 ≤ us.getD i 0 ∧ us.getD i 0 < 1)
+    (hs1 : ∀ i, i < us.length → s1.getD i 0 < (mo_coopRow S A parents T s a i).length) :
+    coopSampleS S A parents T s a us = s1 ↔
+      ∀ i, i < us.length →
+        cum (mo_coopRow S A parents T s a i) (s1.getD i 0) ≤ us.getD i 0 ∧
+        us.getD i 0 < cum (mo_coopRow S A parents T s a i) (s1.getD i 0) +
+          (mo_coopRow S A parents T s a i).getD (s1.getD i 0) 0 := by
+  have hl := coopSampleS_length S A parents T s a us h1 h2
+  rw [mo_list_eq_iff_getD _ _ (by omega), hl]
+  apply forall_congr'
+  intro i
+  apply imp_congr_right
+  intro hi
+  rw [coopSampleS_getD S A parents T s a us h1 h2 i hi]
+  have e := dense_preimage_sum_one (mo_coopRow S A parents T s a i) (us.getD i 0) (s1.getD i 0)
+    (hrow i hi).1 (hrow i hi).2 (hu i hi).1 (hu i hi).2
+  show sampleDense (mo_coopRow S A parents T s a i) (us.getD i 0) = s1.getD i 0 ↔ _
+  rw [e]
+  exact ⟨fun h => h.2, fun h => ⟨hs1 i hi, h⟩⟩
+
+theorem ddnTransitionProbability_eq (S A : List Nat) (parents : List ParentSet)
+    (T : List (List (List Rat))) (s a s1 : List Nat) :
+    ddnTransitionProbability S A parents T s a s1 =
+      ((List.range parents.length).map (fun i =>
+        (mo_coopRow S A parents T s a i).getD (s1.getD i 0) 0)).prod := rfl
+
+/-! ### J2: stored-row POMDP model -/
+
+theorem mo_sparse_box (d : Nat) (row : List (Nat × Rat)) (k : Nat) (u : Rat)
+    (hs : row.Pairwise (fun p q => p.1 < q.1)) (hnn : ∀ e ∈ row, 0 ≤ e.2)
+    (hsum : (row.map (·.2)).sum = 1) (hk : k < row.length) (hu : 0 ≤ u) (hu1 : u < 1) :
+    sampleSparseFixed d row u = (row[k]).1 ↔
+      cum (row.map (·.2)) k ≤ u ∧ u < cum (row.map (·.2)) k + (row[k]).2 := by
+  rw [ms_sparse_iff d row k hs hnn (mo_ne_nil_of_lt _ k hk) hk u hu,
+    dense_preimage_sum_one (row.map (·.2)) u k (vals_nonneg row hnn) hsum hu hu1]
+  have e : (row.map (·.2)).getD k 0 = (row[k]).2 := by simp [List.getD_eq_getElem?_getD, hk]
+  rw [e]
+  exact ⟨fun h => h.2, fun h => ⟨by simpa using hk, h⟩⟩
+
+/-- **J2** stored-row POMDP model (sorted rows, values ≥ 0, stored sums exactly 1): the pairs of draws
+    mapped to (column stored at position `k1` of the transition row, column stored at position `k2`
+    of that state's observation row) are exactly the box with sides the two stored values -/
+theorem sampleSORSparse_box (S O : Nat) (T Ob : Nat → Nat → List (Nat × Rat)) (R : Nat → Nat → Rat)
+    (s a : Nat) (u1 u2 : Rat) (k1 k2 : Nat) (hk1 : k1 < (T a s).length)
+    (hk2 : k2 < (Ob a ((T a s)[k1]).1).length)
+    (hsT : (T a s).Pairwise (fun p q => p.1 < q.1)) (hnnT : ∀ e ∈ T a s, 0 ≤ e.2)
+    (hsumT : ((T a s).map (·.2)).sum = 1)
+    (hsO : (Ob a ((T a s)[k1]).1).Pairwise (fun p q => p.1 < q.1))
+    (hnnO : ∀ e ∈ Ob a ((T a s)[k1]).1, 0 ≤ e.2)
+    (hsumO : ((Ob a ((T a s)[k1]).1).map (·.2)).sum = 1)
+    (hu1 : 0 ≤ u1) (hu1' : u1 < 1) (hu2 : 0 ≤ u2) (hu2' : u2 < 1) :
+    ((sampleSORSparse S O T Ob R s a u1 u2).1 = ((T a s)[k1]).1 ∧
+      (sampleSORSparse S O T Ob R s a u1 u2).2.1 = ((Ob a ((T a s)[k1]).1)[k2]).1) ↔
+      (cum ((T a s).map (·.2)) k1 ≤ u1 ∧ u1 < cum ((T a s).map (·.2)) k1 + ((T a s)[k1]).2) ∧
+      (cum ((Ob a ((T a s)[k1]).1).map (·.2)) k2 ≤ u2 ∧
+        u2 < cum ((Ob a ((T a s)[k1]).1).map (·.2)) k2 + ((Ob a ((T a s)[k1]).1)[k2]).2) := by
+  have e1 := mo_sparse_box S (T a s) k1 u1 hsT hnnT hsumT hk1 hu1 hu1'
+  have e2 := mo_sparse_box O (Ob a ((T a s)[k1]).1) k2 u2 hsO hnnO hsumO hk2 hu2 hu2'
+  constructor
+  · rintro ⟨h1, h2⟩
+    change sampleSparseFixed S (T a s) u1 = _ at h1
+    change sampleSparseFixed O (Ob a (sampleSparseFixed S (T a s) u1)) u2 = _ at h2
+    rw [h1] at h2
+    exact ⟨e1.mp h1, e2.mp h2⟩
+  · rintro ⟨b1, b2⟩
+    have h1 := e1.mpr b1
+    refine ⟨h1, ?_⟩
+    show sampleSparseFixed O (Ob a (sampleSparseFixed S (T a s) u1)) u2 = _
+    rw [h1]; exact e2.mpr b2
+
+/-- the area of the box of J2 is the product of the two stored values -/
+theorem sampleSORSparse_box_area (c1 c2 v1 v2 : Rat) : ((c1 + v1) - c1) * ((c2 + v2) - c2) = v1 * v2 := by
+  ring
+
+
+/-- test (J3): one binary factor with one agent; state (1), action (0) selects row 1 = (1/2, 1/2); the draw 3/4 gives 1 -/
+example : coopSampleS [2] [2] [⟨[0], [[0], [0]]⟩] [[[1/4, 3/4], [1/2, 1/2], [1, 0], [0, 1]]] [1] [0] [3/4] = [1] := by
+  have hid : ddnGetId [2] [2] ⟨[0], [[0], [0]]⟩ [1] [0] = 1 := by decide
+  have hrow : ∀ i, i < 1 → mo_coopRow [2] [2] [⟨[0], [[0], [0]]⟩] [[[1/4, 3/4], [1/2, 1/2], [1, 0], [0, 1]]] [1] [0] i
+      = [1/2, 1/2] := by
+    intro i hi
+    obtain rfl : i = 0 := by omega
+    simp [mo_coopRow, hid]
+  refine (coopSampleS_box [2] [2] _ _ [1] [0] [3/4] [1] rfl rfl rfl ?_ ?_ ?_).mpr ?_
+  all_goals
+    intro i hi
+    have hi' : i < 1 := hi
+    try rw [hrow i hi']
+    obtain rfl : i = 0 := by omega
+    norm_num [cum]
+
+/-- test (J2) -/
+example : (sampleSORSparse 4 3 (fun _ _ => [(1, 1/4), (3, 3/4)]) (fun _ _ => [(0, 1/2), (2, 1/2)]) (fun _ _ => 0)
+      0 0 (1/2) (3/4)).1 = 3 ∧
+    (sampleSORSparse 4 3 (fun _ _ => [(1, 1/4), (3, 3/4)]) (fun _ _ => [(0, 1/2), (2, 1/2)]) (fun _ _ => 0)
+      0 0 (1/2) (3/4)).2.1 = 2 :=
+  (sampleSORSparse_box 4 3 (fun _ _ => [(1, 1/4), (3, 3/4)]) (fun _ _ => [(0, 1/2), (2, 1/2)]) (fun _ _ => 0)
+    0 0 (1/2) (3/4) 1 1 (by simp) (by simp) (by simp) (by norm_num) (by norm_num) (by simp) (by norm_num)
+    (by norm_num) (by norm_num) (by norm_num) (by norm_num) (by norm_num)).mpr (by norm_num [cum])
+
 end AITB.Sampling
